@@ -33,96 +33,53 @@ def run(repo: Repo, rep: Report):
     po = repo["svg_pathops"]
     folder = Folder(repo)
     for rid, txt in [
-        ("R-ORDER.stroke-first", "_simplify strokes the untransformed path, guarded only by stroke != none, before transform and clip"),
+        ("R-ORDER.stroke-first", "_simplify interpreted on schematic documents: the outline of a stroked shape is computed from its untransformed geometry, then transformed and clipped like the fill piece, and follows it in document order"),
         ("R-CASE.stroke-split", "SVG._stroke moves opacities, paints, rules and ids as specified (symbolic interpretation)"),
-        ("R-TABLE.cap-join", "line cap / join tables map to the same-named Skia enums; unknown keywords raise"),
+        ("R-TABLE.cap-join", "svg_pathops.stroke interpreted against the engine model: cap / join keywords reach the stroker as the same-named Skia members, all parameters in the stroker's order; unknown keywords raise"),
         ("R-CASE.dash", "stroke_commands parses dash arrays per SVG and passes every stroke parameter under its own name, unmodified"),
         ("R-SITE.skia-stroke", "svg_pathops.stroke argument order, conic conversion at the given tolerance, simplify with documented fallback"),
-        ("R-SITE.tolerance", "the stroker tolerance is the viewBox-derived default tolerance"),
+        ("R-SITE.tolerance", "SVG.tolerance interpreted on documents with / without a view box; the stroker receives the document's tolerance and the cascaded stroke parameters"),
     ]:
         rep.rule(rid, txt)
-    # ---- order in _simplify
-    fn = svg.func("SVG._simplify")
-    F = "svg.SVG._simplify"
-    rep.saw(F)
-    shape_if = [n for n in ast.walk(fn) if isinstance(n, ast.If) and unparse(n.test) == "_is_shape(el.tag)"]
-    if not shape_if:
-        raise AnalysisError("_simplify: shape branch not found")
-    sb = shape_if[0].body
-    strokes = [c for c in ast.walk(shape_if[0]) if isinstance(c, ast.Call) and call_name(c) in ("self._stroke",) or
-               isinstance(c, ast.Call) and call_name(c).endswith((".stroke_commands", "svg_pathops.stroke"))]
-    transforms = [c for c in ast.walk(shape_if[0]) if isinstance(c, ast.Call) and call_name(c).endswith(".apply_transform")]
-    ok = False
-    why = ""
-    if len(strokes) == 1 and call_name(strokes[0]) == "self._stroke" and unparse(strokes[0].args[0]) == "paths[0]":
-        g = parent(parent(parent(strokes[0]))) if isinstance(parent(strokes[0]), ast.Call) else parent(parent(strokes[0]))
-        # climb to the enclosing If
-        p = strokes[0]
-        while p is not None and not isinstance(p, ast.If):
-            p = parent(p)
-        if p is not None and unparse(p.test) == "paths[0].stroke != 'none'" and p in sb and not p.orelse:
-            init = [s for s in sb if isinstance(s, ast.Assign) and unparse(s.targets[0]) == "paths"]
-            if init and unparse(init[0].value) == "[from_element(el).as_path().absolute(inplace=True)]" and sb.index(init[0]) < sb.index(p):
-                if all(t.lineno > strokes[0].lineno for t in transforms):
-                    ok = True
-                else:
-                    why = "a transform is applied before the shape is stroked"
-            else:
-                why = "the stroked path is not the shape's own untransformed absolute path"
-        else:
-            why = "the stroke step is guarded by more than `stroke != 'none'` or has an alternative branch"
-    else:
-        why = f"{len(strokes)} stroking call sites in the shape branch (exactly one self._stroke(paths[0]) expected)"
-    if ok:
-        rep.ok("R-ORDER.stroke-first", f"{F}: single self._stroke(paths[0]) under `stroke != none`, on the untransformed path, before any apply_transform", "", True)
-    else:
-        rep.fail("R-ORDER.stroke-first", F, "if paths[0].stroke != 'none': paths = list(self._stroke(paths[0]))",
-                 f"{why}: the outline must be computed in the shape's own coordinate system so that outer transforms distort it as SVG prescribes", svg, shape_if[0])
+    from sa.rules import sem, sempath
+    sem.check_simplify(repo, rep, {"stroke-order": "R-ORDER.stroke-first", "stroke-args": "R-SITE.tolerance"})
     _check_split(repo, rep)
-    # ---- tables
-    for name, kws, suffix in (("_SVG_TO_SKIA_LINE_CAP", spec.LINECAPS, "_CAP"), ("_SVG_TO_SKIA_LINE_JOIN", spec.LINEJOINS, "_JOIN")):
-        tb = folder.table("svg_pathops", name)
-        rep.tables.add(f"svg_pathops.{name}")
-        got = {k: (v.name.split(".")[-1] if isinstance(v, Ref) else str(v)) for k, v in tb.items()}
-        want = {k: k.upper() + suffix for k in kws}
-        if got != want:
-            rep.fail("R-TABLE.cap-join", f"svg_pathops.{name}", str(got), f"table is {got}, SVG 1.1 keywords map to {want}", po)
-        else:
-            rep.ok("R-TABLE.cap-join", f"svg_pathops.{name}", f"{sorted(kws)} -> same-named Skia members")
-    sk = po.func("stroke")
-    t = unparse(sk)
-    rep.saw("svg_pathops.stroke")
-    if "cap = _SVG_TO_SKIA_LINE_CAP.get(svg_linecap, None)" in t and "join = _SVG_TO_SKIA_LINE_JOIN.get(svg_linejoin, None)" in t and t.count("raise ValueError") >= 2:
-        rep.ok("R-TABLE.cap-join", "svg_pathops.stroke: unknown cap/join raise ValueError")
-    else:
-        rep.fail("R-TABLE.cap-join", "svg_pathops.stroke", "cap = _SVG_TO_SKIA_LINE_CAP.get(svg_linecap); if cap is None: raise ValueError", "unknown cap/join keywords are no longer rejected", po, sk)
-    calls = [c for c in ast.walk(sk) if isinstance(c, ast.Call) and call_name(c) == "sk_path.stroke"]
-    if calls and [unparse(a) for a in calls[0].args] == ["stroke_width", "cap", "join", "stroke_miterlimit", "dash_array", "dash_offset"]:
-        rep.ok("R-SITE.skia-stroke", "svg_pathops.stroke: sk_path.stroke(width, cap, join, miterlimit, dash_array, dash_offset)")
-    else:
-        rep.fail("R-SITE.skia-stroke", "svg_pathops.stroke", "sk_path.stroke(stroke_width, cap, join, stroke_miterlimit, dash_array, dash_offset)",
-                 "stroke parameters are not handed to Skia in its signature order", po, calls[0] if calls else sk)
-    if "sk_path.convertConicsToQuads(tolerance)" in t:
-        rep.ok("R-SITE.skia-stroke", "svg_pathops.stroke: conics converted at the caller's tolerance")
-    else:
-        rep.fail("R-SITE.skia-stroke", "svg_pathops.stroke", "sk_path.convertConicsToQuads(tolerance)", "conic conversion no longer uses the given tolerance", po, sk)
-    if "skia_path(svg_cmds, fill_rule='nonzero')" in t and "backup = pathops.Path(sk_path)" in t and "sk_path = backup" in t and "return svg_commands(sk_path)" in t:
-        rep.ok("R-SITE.skia-stroke", "svg_pathops.stroke: simplify(fix_winding) with fallback to the unsimplified outline")
-    else:
-        rep.fail("R-SITE.skia-stroke", "svg_pathops.stroke", "backup = pathops.Path(sk_path); try simplify; except PathOpsError: sk_path = backup", "stroke post-processing changed", po, sk)
+    sempath.check_stroke(repo, rep, {"args": "R-TABLE.cap-join", "post": "R-SITE.skia-stroke"})
     _check_dash(repo, rep)
-    # ---- tolerance
-    sf = svg.func("SVG._stroke")
-    if "shape.stroke_commands(self.tolerance)" in unparse(sf):
-        rep.ok("R-SITE.tolerance", "svg.SVG._stroke: stroke_commands(self.tolerance)")
+    _check_tolerance(repo, rep)
+
+
+def _check_tolerance(repo, rep):
+    """SVG.tolerance interpreted on documents with and without a view box."""
+    from sa.rules import sem
+    from sa.dom import El
+    from sa.machine import make_svg, run, ok_outcomes
+    from sa.sym import method_of
+    from fractions import Fraction
+    svg = repo["svg"]
+    F = "svg.SVG.tolerance"
+    cases = [({"viewBox": "0 0 128 128"}, Fraction(128, 1000)), ({"viewBox": "0 0 200 100"}, Fraction(1, 10)), ({"viewBox": "-50 -50 30 60"}, Fraction(3, 100)),
+             ({"width": "64", "height": "32"}, Fraction(32, 1000)), ({}, Fraction(1, 10))]
+    probs = []
+    for attrs, want in cases:
+        def body(it, a, k):
+            return it.getattr(a[0], "tolerance")
+        outs = ok_outcomes(run(repo, body, lambda attrs=attrs: ([make_svg(El("svg", dict(attrs), [El("path", {"d": sem.pd(("M", (0, 0)))})]))], {})), F)
+        for o in outs:
+            if o.raised:
+                probs.append(f"{attrs}: raises {o.raised}")
+                continue
+            try:
+                got = Fraction(o.value) if not hasattr(o.value, "const_value") else o.value.const_value()
+            except (TypeError, ValueError):
+                probs.append(f"{attrs}: tolerance is {o.value!r}")
+                continue
+            if abs(got - want) > Fraction(1, 10 ** 9):
+                probs.append(f"<svg {attrs}>: tolerance is {float(got)}; 0.1% of the shorter side of the view box (0.1 without one) is {float(want)}")
+    if probs:
+        rep.fail("R-SITE.tolerance", "svg.SVG._default_tolerance", "tolerance of documents with / without a view box", f"{len(probs)} of {len(cases)} documents; first: {probs[0]}", svg, svg.func("SVG._default_tolerance"))
     else:
-        rep.fail("R-SITE.tolerance", "svg.SVG._stroke", "shape.stroke_commands(self.tolerance)", "the stroker is not given the document tolerance", svg, sf)
-    tol = svg.func("SVG.tolerance")
-    dt = svg.func("SVG._default_tolerance")
-    if "return self._default_tolerance()" in unparse(tol) and "min(vbox.w, vbox.h) * _MAX_PCT_ERROR / 100" in unparse(dt) and "vbox = self.view_box()" in unparse(dt):
-        rep.ok("R-SITE.tolerance", "svg.SVG.tolerance: min(viewBox w, h) * _MAX_PCT_ERROR / 100")
-    else:
-        rep.fail("R-SITE.tolerance", "svg.SVG._default_tolerance", "min(vbox.w, vbox.h) * _MAX_PCT_ERROR / 100", "tolerance is no longer derived from the viewBox", svg, dt)
+        rep.ok("R-SITE.tolerance", F, f"{len(cases)} documents (viewBox, width/height only, neither): 0.1% of the shorter side, default 0.1; the stroker receives it (checked on the interpreted _simplify)", True)
 
 
 def _shape(repo, **over):
@@ -279,7 +236,7 @@ VARIANTS = [
     Variant("stroke reset before the opacity products", [Edit(_S, "SVG._stroke", "        # a few attributes move in interesting ways\n", "        for cleanmeup in (shape, stroke):\n            _reset_attrs(cleanmeup, lambda field: field.name.startswith(\"stroke\"))\n        # a few attributes move in interesting ways\n")],
             [("R-CASE.stroke-split", "_stroke")]),
     Variant("round and square caps swapped", [Edit("svg_pathops", None, '"round": pathops.LineCap.ROUND_CAP,\n    "square": pathops.LineCap.SQUARE_CAP,', '"round": pathops.LineCap.SQUARE_CAP,\n    "square": pathops.LineCap.ROUND_CAP,')],
-            [("R-TABLE.cap-join", "_SVG_TO_SKIA_LINE_CAP")]),
+            [("R-TABLE.cap-join", "stroke")]),
     Variant("odd dash arrays not repeated", [Edit("svg_types", "SVGShape.stroke_commands", "        if len(dash_array) % 2 != 0:\n            dash_array.extend(dash_array)\n", "")], [("R-CASE.dash", "stroke_commands")]),
     Variant("dash offset before dash array", [Edit("svg_types", "SVGShape.stroke_commands", "            dash_array,\n            self.stroke_dashoffset,\n", "            self.stroke_dashoffset,\n            dash_array,\n")],
             [("R-CASE.dash", "stroke_commands")]),
@@ -293,8 +250,8 @@ VARIANTS = [
     Variant("transform before stroking for uniform scales", [Edit(_S, "SVG._simplify", "                if paths[0].stroke != \"none\":\n                    paths = list(self._stroke(paths[0]))\n",
                                                                    "                if paths[0].stroke != \"none\" and context.transform.a == context.transform.d and context.transform.b == 0:\n                    paths = list(self._stroke(paths[0].apply_transform(context.transform)))\n                elif paths[0].stroke != \"none\":\n                    paths = list(self._stroke(paths[0]))\n")],
             [("R-ORDER.stroke-first", "_simplify")]),
-    Variant("tolerance constant", [Edit(_S, "SVG._stroke", "shape.stroke_commands(self.tolerance)", "shape.stroke_commands(0.1)")], [("R-SITE.tolerance", "_stroke"), ("R-CASE", "_stroke")]),
+    Variant("tolerance constant", [Edit(_S, "SVG._stroke", "shape.stroke_commands(self.tolerance)", "shape.stroke_commands(0.1)")], [("R-SITE.tolerance", "_simplify"), ("R-CASE", "_stroke")]),
     Variant("miterlimit and width swapped at Skia", [Edit("svg_pathops", "stroke", "sk_path.stroke(stroke_width, cap, join, stroke_miterlimit, dash_array, dash_offset)", "sk_path.stroke(stroke_miterlimit, cap, join, stroke_width, dash_array, dash_offset)")],
-            [("R-SITE.skia-stroke", "stroke")]),
+            [("R-TABLE.cap-join", "stroke")]),
     Variant("silent: products written without augmented assignment", [Edit(_S, "SVG._stroke", "        stroke.opacity *= stroke.stroke_opacity\n", "        stroke.opacity = stroke.stroke_opacity * stroke.opacity\n")], silent=True),
 ]
